@@ -1,15 +1,16 @@
 """C04 part allocsafe2 (continuation of c04_allocsafe): the two `_partial` theorems completed (mpz_com, mpz_tdiv_q_2exp:
 well-formedness and the integer identity), size-aware models of mpz/and.c, ior.c, xor.c (every sign case, the operands
 decremented into temporary space, the result-one-limb-longer carry cases, the pointer re-reads after _mpz_realloc) and of
-mpz/mul_i.h (mpz_mul_ui) in lean/Mpir/Model/AllocSafeMpz2.lean; `mpz_and_alloc_safe`, `mpz_mul_ui_alloc_safe` for all
-heaps, allocations and alias ids.  Ops `as2_*` (harness/ops_allocsafe2.c) run the real function on objects of the GIVEN
-allocations and compare ALLOC(w), SIZ(w) and the value with the model's run (mpz_ior / mpz_xor: tied, no theorem yet)."""
+mpz/mul_i.h (mpz_mul_ui) in lean/Mpir/Model/AllocSafeMpz2.lean; `mpz_and_alloc_safe`, `mpz_xor_alloc_safe`,
+`mpz_mul_ui_alloc_safe` for all heaps, allocations and alias ids.  Ops `as2_*` (harness/ops_allocsafe2.c) run the real function
+on objects of the GIVEN allocations and compare ALLOC(w), SIZ(w) and the value with the model's run (mpz_ior: mirrored and
+tied in every sign case and alias mode, no theorem yet)."""
 from genlib import *
 
 LEAN_MODULES = ["MpirProofs.Props.C04_allocsafe2"]
 THEOREMS = ["Mpir.AllocSafe." + t for t in (
-    "mpz_com_alloc_safe", "mpz_tdiv_q_2exp_alloc_safe", "mpz_and_alloc_safe", "mpz_mul_ui_alloc_safe",
-    "Spec.com_spec", "Spec.tdiv_q_2exp_spec", "and_refines", "Wrote.wr", "Wrote.cat", "Den.wr")]
+    "mpz_com_alloc_safe", "mpz_tdiv_q_2exp_alloc_safe", "mpz_and_alloc_safe", "mpz_xor_alloc_safe", "mpz_mul_ui_alloc_safe",
+    "Spec.com_spec", "Spec.tdiv_q_2exp_spec", "and_refines", "xor_refines", "cat_pp_wrote", "Wrote.wr", "Wrote.cat", "Den.wr")]
 TRUSTED = ["hand-written size-aware models lean/Mpir/Model/AllocSafeMpz2.lean (mpz/and.c, ior.c, xor.c, mul_i.h on the memory model of "
            "AllocSafe.lean; TMP_ALLOC blocks = blocks of their own that no variable points to; the element-wise loops "
            "`res_ptr[i] = op1_ptr[i] OP op2_ptr[i]` = a kernel reading index i before storing index i), tied by exact comparison of "
